@@ -926,8 +926,10 @@ def dynamic_set_model(ctx, rule):
     from engine.loader import AnalysisError
     f = ctx.repo.func("param.parameters.Dynamic.__set__")
     problems, n = [], 0
-    for route, kind in [(r, k) for r in ("instance", "class") for k in ("number", "generator", "ref-to-number", "ref-to-generator")]:
+    for route, kind, rejected in [(r, k, j) for r in ("instance", "class") for k in ("number", "generator", "ref-to-number", "ref-to-generator") for j in (False, True)]:
         if route == "class" and kind.startswith("ref"):
+            continue
+        if rejected and kind != "generator":
             continue
         number = Obj("a_number")
         gen = Obj("a_generator", __callable__=True)
@@ -942,6 +944,9 @@ def dynamic_set_model(ctx, rule):
 
         def hook(fn, args, kwargs):
             if fn == "super().__set__":
+                if rejected:
+                    from engine.absint import _Raise as _Rj
+                    raise _Rj("TypeError")          # a constant / read-only parameter, or a value the validator refuses
                 if inst is None:
                     me.attrs["default"] = stored
                 else:
@@ -967,9 +972,14 @@ def dynamic_set_model(ctx, rule):
             outs = it.run_all(f, {f.params[0]: me, f.params[1]: inst, f.params[2]: given})
         except Unsupported as e:
             raise AnalysisError("Dynamic set model: absint cannot interpret Dynamic.__set__: %s" % e)
-        if len(outs) != 1 or outs[0].imprecise or outs[0].kind != "return":
+        if len(outs) != 1 or outs[0].imprecise or outs[0].kind != ("raise" if rejected else "return"):
             raise AnalysisError("Dynamic set model: Dynamic.__set__ is not interpretable precisely (%s)" % (outs[0].notes[:2] if outs else "no outcome"))
         n += 1
+        if rejected:
+            if inits:
+                problems.append("%s route, the assignment of a generator is REFUSED (constant parameter / invalid value): generator state is (re)initialised all the same -- a generator "
+                                "that already serves another parameter loses its cached value for the current time and its saved states, and yields another value at the same time" % route)
+            continue
         desc = "%s route, assigning %s" % (route, {"number": "a number", "generator": "a generator", "ref-to-number": "a callable reference (a depends method) that resolves to a number",
                                                     "ref-to-generator": "a callable reference that resolves to a generator"}[kind])
         targets = [a[0] for a in inits if a]
